@@ -15,6 +15,7 @@ import numpy as np
 
 import common
 import gen
+import c09_seq as SEQ
 from common import w_cells, w_cell, w_val, canon_cell, call
 from bermuda import Cell, CumulativeCell, IncrementalCell, Metadata, Triangle
 import importlib
@@ -304,6 +305,33 @@ def expected_refusal(p):
     return None
 
 
+def prime_fns(focus):
+    """custom rules for the priming calls: rules for the otherwise unknown names and overrides of default fields"""
+    return {
+        "mystery": lambda vd: S._conforming_sum(vd["mystery"]),
+        "loss_ratio": lambda vd: S._conforming_sum(vd["loss_ratio"]),
+        "paid_loss2": lambda vd: S._conforming_sum(vd["paid_loss2"]),
+        "paid_loss": lambda vd: S._conforming_weighted_average(vd["paid_loss"], vd["reported_loss"]),
+        focus: lambda vd, k=focus: max([v for v in vd[k] if v is not None and np.isscalar(v)] or [0]),
+    }
+
+
+def prime(rng, focus):
+    """(b) priming: the same function, summarize_cell_values and aggregate on ANOTHER input with other options"""
+    d = datetime.date
+    m1, m2 = Metadata(details={"k": 1}), Metadata(details={"k": 2})
+    arr = lambda: np.array([rng.randrange(1, 9) for _ in range(3)], dtype=np.float64)  # noqa: E731
+    vals = lambda: {"mystery": 1.5, "loss_ratio": 2, "paid_loss2": arr(), "paid_loss": arr(),  # noqa: E731
+                    "reported_loss": arr(), "earned_premium": 10, focus: rng.randrange(1, 9)}
+    cells = [CumulativeCell(d(2001, 1, 1), d(2001, 12, 31), d(2001, 12, 31), vals(), m)
+             for m in (m1, m2)] + [CumulativeCell(d(2002, 1, 1), d(2002, 12, 31), d(2002, 12, 31), vals(), m1)]
+    t = Triangle(cells)
+    fns = prime_fns(focus)
+    call(lambda: t.summarize(summary_fns=fns, summarize_premium=rng.random() < 0.5))
+    call(lambda: S.summarize_cell_values(cells[:2], fns, False))
+    call(lambda: t.select(["paid_loss", "reported_loss", "earned_premium"]).aggregate(period_resolution=(2, "years")))
+
+
 def correspondence(ctx):
     rng = ctx.rng
     rules = read_rules()
@@ -319,15 +347,50 @@ def correspondence(ctx):
         focus = names[i % len(names)]
         p = gen_case(rng, focus, rules, names)
         fns = make_fns(p.extra)
-        wire_in = w_cells(p.cells)
         st, tri = call(Triangle, p.cells)
         if st != "ok":
             continue
-        st, out = call(lambda: tri.summarize(summary_fns=fns, summarize_premium=p.prem))
+        seq = rng.random() < 0.3
+        pre = w_cells(tri.cells)                     # the input as it is BEFORE any call
+        case = {"op": "summarize", "cells": pre, "prem": p.prem, "extra": p.extra}
+        if seq:
+            acc_in = SEQ.read_accessors(tri)         # (c) cached accessors of the input, read before the call
+            prime(rng, focus)                        # (b) other calls in the same process first
+        # (d) arguments with defaults are not always passed
+        kwargs = {}
+        if fns is not None or rng.random() < 0.3:
+            kwargs["summary_fns"] = fns
+        if not p.prem or rng.random() < 0.3:
+            kwargs["summarize_premium"] = p.prem
+        st, out = call(lambda: tri.summarize(**kwargs))
         impl = {"ok": w_cells(out.cells)} if st == "ok" else {"err": out}
-        case = {"op": "summarize", "cells": w_cells(tri.cells), "prem": p.prem, "extra": p.extra}
         reqs.append({**case, "impl": impl.get("ok")})
         info.append(("summarize", p, tri.cells, impl, case))
+        if w_cells(tri.cells) != pre:
+            ctx.fail("summarize changed its INPUT triangle", case, {"after": w_cells(tri.cells)[:4]})
+        if seq:
+            ctx.count("summarize/sequence")
+            if st == "ok":
+                bad = SEQ.accessors_consistent(out)
+                if bad:
+                    ctx.fail(f"accessors of the summarized triangle disagree with its cells: {bad}", case, {"impl": impl})
+            if SEQ.read_accessors(tri) != acc_in:
+                ctx.fail("accessors of the input triangle changed across summarize", case)
+            # (a) spoil the first result in place, optionally run a differently-configured call, then call again
+            if st == "ok" and SEQ.mutate_result(out, rng, source=tri):
+                ctx.count("summarize/result-shares-objects-with-input")
+            if rng.random() < 0.5:
+                call(lambda: tri.summarize(summary_fns=prime_fns(focus), summarize_premium=not p.prem))
+            st2, out2 = call(lambda: tri.summarize(**kwargs))
+            impl2 = {"ok": w_cells(out2.cells)} if st2 == "ok" else {"err": out2}
+            same = (("err" in impl2) == ("err" in impl)) and (
+                impl2.get("err") == impl.get("err") if "err" in impl else
+                [canon_cell(c) for c in impl2["ok"]] == [canon_cell(c) for c in impl["ok"]])
+            if not same:
+                ctx.fail("a second summarize call on the same triangle with the same arguments gives another result",
+                         case, {"first": impl, "second": impl2})
+            if w_cells(tri.cells) != pre:
+                ctx.fail("summarize changed its INPUT triangle (second call)", case, {"after": w_cells(tri.cells)[:4]})
         for f in p.fields:
             ctx.count(f"field/{f}")
         ctx.count(f"summarize/slices={p.n_slices}")
@@ -357,9 +420,14 @@ def correspondence(ctx):
         if p.kind == "I":
             p.prem = True if rng.random() < 0.5 else p.prem
         fns = make_fns(p.extra)
-        st, out = call(lambda: S.summarize_cell_values(cells, fns, p.prem))
-        impl = {"ok": [[kk, w_val(v)] for kk, v in out.items()]} if st == "ok" else {"err": out}
         case = {"op": "cellValues", "cells": w_cells(cells), "prem": p.prem, "extra": p.extra}
+        if p.prem and rng.random() < 0.5:
+            st, out = call(lambda: S.summarize_cell_values(cells, fns))          # default summarize_premium
+        else:
+            st, out = call(lambda: S.summarize_cell_values(cells, fns, p.prem))
+        impl = {"ok": [[kk, w_val(v)] for kk, v in out.items()]} if st == "ok" else {"err": out}
+        if w_cells(cells) != case["cells"]:
+            ctx.fail("summarize_cell_values changed its INPUT cells", case, {"after": w_cells(cells)[:4]})
         reqs.append({**case, "impl": impl.get("ok")})
         p.cells = cells
         info.append(("cellValues", p, cells, impl, case))
@@ -422,7 +490,7 @@ if __name__ == "__main__":
              "pool, optionally per-cell subsets; int/float/int64-array/float64-array values (dyadic), an 8% stream "
              "mixing kinds and shapes cell by cell; Cell/CumulativeCell/IncrementalCell; summarize_premium both ways; "
              "custom summary_fns (new and overriding), unknown and upper-case field names; plus summarize_cell_values "
-             "on arbitrary sub-lists. distinct = distinct canonical input dump; non-trivial = more than one slice and at "
+             "on arbitrary sub-lists. SEQUENCE stream (30% of cases): cached accessors of the input read first, priming calls of summarize / summarize_cell_values / aggregate on another input with custom summary_fns and other options, the call under test with default arguments omitted, input dump compared before/after, accessors of the result compared with a fresh triangle of its cells, the result spoiled in place (arrays zeroed, dicts edited, list reversed; objects shared with the input left alone), optionally a differently configured call, then the same call again with an identical result required. distinct = distinct canonical input dump; non-trivial = more than one slice and at "
              "least one coordinate held by two cells",
         assumptions=["field names are ASCII (str.lower modelled by String.toLower)",
                      "values are NaN-free, exactly representable; ratio-field results compared with relative tolerance 2^-40",
